@@ -7,7 +7,9 @@ _MON_COQ = ["Routine/ProofsMonInv.v", "Routine/ProofsMonObs.v", "Routine/ProofsM
 _RULE = ("implementation-driven random gate-level histories of RoutineContainer and StateRoutineContainer (SetContext/SetRoutine/"
          "SetState/SwapValue/SetStateRoutine/RestartRoutine, instances stepped through their first select, user-function returns "
          "with nil/Canceled/error, bookkeeping sections, fake-clock advances and retry-timer callbacks, WaitExited callers with "
-         "cancellation and error channels, root contexts cancelled by their owner) + corpus; distinct = distinct event sequence; non-trivial = >= 10 events")
+         "cancellation and error channels, root contexts cancelled by their owner; WaitExited caller contexts of three flavours (n-th caller: n%4 = 1 ends like a "
+         "deadline, 3 cancelled with a cause, else plain) and root contexts that are plain, end like a deadline (one of them also for the derived instance contexts) or "
+         "are cancelled with a cause, returned / reported errors distinguished by identity (context.Canceled itself / DeadlineExceeded / the cause / other)) + corpus; distinct = distinct event sequence; non-trivial = >= 10 events")
 
 
 def _parse(ev, o):
